@@ -467,9 +467,9 @@ class Average(Numeric):
       self,
       decision_point: pg.geno.DecisionPoint,
       parent_decisions: List[Optional[float]]) -> float:
-    del decision_point
     parent_decisions = [d for d in parent_decisions if d is not None]
-    return sum(parent_decisions) / len(parent_decisions)
+    return _clamp(
+        sum(parent_decisions) / len(parent_decisions), decision_point)
 
 
 @pg.members([
@@ -508,14 +508,18 @@ class WeightedAverage(Numeric):
       self,
       decision_point: pg.geno.Float,
       parent_decisions: List[Optional[float]]) -> float:
-    del decision_point
     decision = 0.0
     denominator = 0.0
     for d, w in zip(parent_decisions, self._parent_weights):
       if d is not None:
         decision += w * d
         denominator += w
-    return decision / denominator
+    return _clamp(decision / denominator, decision_point)
+
+
+def _clamp(value: float, decision_point: pg.geno.Float) -> float:
+  """Keeps a (rounded) mean of in-range values within the range."""
+  return min(max(value, decision_point.min_value), decision_point.max_value)
 
 
 #
